@@ -10,6 +10,7 @@ R-READS       collect_possible_reads records every IDENTIFIER (so anything writt
 """
 from ..front import AnalysisBroken
 from ..facts import walk, short, calls
+from ..inline import expanded_fn
 from . import gates as G
 
 CHANGES = "changes_any_variable"
@@ -332,21 +333,17 @@ def run_visitors(chk, F, visitors=("UTAP::CollectChangesVisitor", "UTAP::Collect
             vfn = F.resolve_method(visitor, vname, 1)
             if vfn is None:
                 raise AnalysisBroken("%s has no %s" % (visitor, vname))
-            # closure over delegation: visitX(stat) calling visitY(stat) on this
-            bodies, seen = [], set()
-            todo = [vfn]
-            while todo:
-                f = todo.pop()
-                if f["q"] in seen:
-                    continue
-                seen.add(f["q"])
-                bodies.append(f)
-                for c in calls(f["body"]):
-                    if c.get("name", "").startswith("visit") and c.get("name") != "visitExpression" and \
-                            (c.get("recv") is None or c["recv"].get("k") == "this"):
-                        t = F.resolve_method(visitor, c["name"], 1)
-                        if t is not None:
-                            todo.append(t)
+            # what the visit method does, with everything it delegates to on `this` expanded in place: other visit
+            # methods as dispatched for this visitor class, private workers (`visitConditionAndBody(stat->cond,
+            # *stat->stat)`) with their parameters replaced by the argument expressions
+            def dyn(c, visitor=visitor):
+                if (c.get("recv") is None or c["recv"].get("k") == "this") and c.get("name") and \
+                        c.get("name") != "visitExpression" and c.get("ck") in ("member", None):
+                    t = F.resolve_method(visitor, c["name"], len(c.get("args", [])))
+                    if t is not None and t.get("body") is not None:
+                        return t
+                return None
+            bodies = [expanded_fn(vfn, F, maxdepth=5, resolve=dyn)]
             fields = []
             for c in [sc] + F.bases(sc):
                 r = F.records.get(c)
@@ -850,7 +847,7 @@ def run_restricted(chk, F):
         chk.ob(rid, "restrict|%s" % q.split("::")[-1], ok,
                "%s does not add the symbols its size depends on to currentTemplate->restricted" % q,
                "%s:%s" % (fn["file"], fn["line"]))
-    ie = F.fn("UTAP::DocumentBuilder::instantiation_end")
+    ie = expanded_fn(F.fn("UTAP::DocumentBuilder::instantiation_end"), F, stop=("collectDependencies",))
     prop = False
     for n in walk(ie["body"]):
         if n.get("k") == "for":
